@@ -4,7 +4,7 @@ from vlib import std, hbuild, coq, common
 
 PID = "C38"
 META = {
-    "text": "28 theorems (Properties_C38.v, all closed under the global context) about a line-by-line Gallina model of "
+    "text": "29 theorems (Properties_C38.v, all closed under the global context) about a line-by-line Gallina model of "
             "ProxyProtocol::Parse (magic dispatch, v1 line isolator with the 107-byte rule, v1 field parsers through the "
             "Tokenizer int64/prefix models, v2 via BinaryTokenizer, TLV loop, Header::addressFamily/getValues): for ALL "
             "inputs and ANY IP text conversion, a definitive outcome (parsed header + size, or rejection) of a prefix is "
@@ -13,9 +13,11 @@ META = {
             "(ports as arbitrary digit strings <= 65535, and as canonical decimals by a sweep over all 65536 ports) and "
             "all v2 headers (INET/INET6/UNIX/UNSPEC, PROXY/LOCAL, STREAM/DGRAM, any TLV list) followed by arbitrary "
             "bytes; oversized v1 lines, ports > 65535 of ANY digit count or non-numeric, family mismatches, bad v2 "
-            "version/command/family/protocol, short v2 address blocks and 12+ non-magic bytes are rejected. Two "
-            "deviations of the real code are proved as _refuted theorems and reproduced on the implementation (known "
-            "findings): bytes after the v1 destination port are ignored, and well-formed v1 TCP6 lines carrying "
+            "version/command/family/protocol, short v2 address blocks, 12+ non-magic bytes and (since the repair "
+            "ea1b14e) any bytes after the v1 destination port are rejected; conversely every input reported as a v1 "
+            "header with addresses starts with a well-formed TCP line whose fields are the reported ones "
+            "(C38_v1_accepted_line_is_wellformed). One deviation of the real code is proved as a _refuted theorem and "
+            "reproduced on the implementation (known finding): well-formed v1 TCP6 lines carrying "
             "v4-mapped IPv6 addresses are rejected (hence C38_v1_tcp_roundtrip_partial). The model is tied to the code "
             "by regenerated constants (magic strings, enumerators, HEXDIG/CR sets, in_addr sizes) and by differential "
             "runs of the extracted model against src/proxyp/*.cc, src/parser/BinaryTokenizer.cc and Tokenizer.cc "
@@ -237,7 +239,7 @@ def gen_boundary(rng):
         fam = rng.choice([b"4", b"6", b"4", b"6", b"5", b"", b"46", b"44"])
         pool = [rand_v4, rand_v6, lambda r: r.choice(V6MAPPED), lambda r: r.choice(ODDIP)]
         return enc_v1(fam, rng.choice(pool)(rng), rng.choice(pool)(rng), rand_port(rng), rand_port(rng))
-    if k == 4:      # trailing bytes after the destination port (known finding) and other separators
+    if k == 4:      # trailing bytes after the destination port (must be rejected) and other separators
         base = enc_v1(b"4", rand_v4(rng), rand_v4(rng), rand_port(rng), rand_port(rng))[:-2]
         return base + rng.choice([b" ", b"x", b" extra", b"\t", b"abc", b"\n", b" 1"]) + b"\r\n"
     if k == 5:      # line terminators
@@ -362,7 +364,7 @@ def ref_v6(t):
 
 
 def ref_decode(inp):
-    """('wf', fields, length) | ('bad', cls) | ('known', cls, ...) | None (no statement / incomplete)"""
+    """('wf', fields, length) | ('bad', cls) | ('known', cls, fields, length) | None (no statement / incomplete)"""
     if inp.startswith(MAGIC2):
         if len(inp) < 16:
             return None
@@ -438,7 +440,7 @@ def ref_decode(inp):
             return None          # leading zeros: no statement
         f["src"], f["dst"], f["sp"], f["dp"] = s, d, int(tk[2]), int(m.group(0))
         if len(tk) > 4 or m.group(0) != p2:
-            return ("known", "v1-trailing-garbage", f, end + 2)
+            return ("bad", "v1-trailing-garbage")      # bytes after the destination port
         if fam == b"6" and (s[:12] == V4PFX or d[:12] == V4PFX):
             return ("known", "v1-tcp6-v4mapped", f, end + 2)
         return ("wf", f, end + 2)
@@ -463,8 +465,32 @@ def parse_ok(words):
     return d["size"], f
 
 
+V1LINE = re.compile(rb"PROXY TCP([46]) ([0-9A-Fa-f.:]+) ([0-9A-Fa-f.:]+) ([0-9]+) ([0-9]+)\r\n")
+
+
+def check_accept_shape(inp, final):
+    """converse direction: whatever is reported as a v1 header with addresses must be a line of exactly the
+    shape PROXY TCPx SP addr SP addr SP digits SP digits CRLF (<= 107 bytes) with the reported ports"""
+    w = final.split()
+    if w[0] != "OK":
+        return None
+    size, g = parse_ok(w)
+    if g["v"] != b"1.0" or g["ign"]:
+        return None
+    m = V1LINE.fullmatch(inp[:size])
+    if not m or size > 107:
+        return ("oracle:v1-accepted-not-wellformed", "reported a v1 header for a line that is not of the form "
+                "PROXY TCPx SP addr SP addr SP port SP port CRLF within 107 bytes: %r" % inp[:size][:120])
+    if int(m.group(4)) != g["sp"] or int(m.group(5)) != g["dp"]:
+        return ("oracle:field:port", "reported ports %d/%d differ from the written %s/%s" % (g["sp"], g["dp"], m.group(4), m.group(5)))
+    return None
+
+
 def check_final(inp, final):
     """the last two sentences of the property on the outcome for the whole input"""
+    v = check_accept_shape(inp, final)
+    if v:
+        return v
     ref = ref_decode(inp)
     if ref is None:
         return None
@@ -474,10 +500,6 @@ def check_final(inp, final):
             return ("oracle:malformed-accepted:" + ref[1], "malformed header (%s) is not rejected" % ref[1])
         return None
     kind, f, length = (ref[0], ref[1], ref[2]) if ref[0] == "wf" else (ref[0] + ":" + ref[1], ref[2], ref[3])
-    if kind == "known:v1-trailing-garbage":
-        if w[0] == "OK":
-            return ("oracle:v1-trailing-garbage", "bytes after the destination port of a v1 header are accepted and ignored")
-        return None
     if kind == "known:v1-tcp6-v4mapped":
         if w[0] == "REJ":
             return ("oracle:v1-tcp6-v4mapped-rejected", "well-formed v1 TCP6 header with a v4-mapped IPv6 address is rejected")
